@@ -379,6 +379,13 @@ func (s *grpcServer) Write(srv bytestream.ByteStream_WriteServer) error {
 		for {
 			req, err := srv.Recv()
 			if err == io.EOF {
+				if firstIteration {
+					// The client closed the stream without sending anything:
+					// no Put was started, so nobody will ever send a putResult.
+					msg := "Write stream closed before a request was received"
+					recvResult <- status.Error(codes.InvalidArgument, msg)
+					return
+				}
 				if cmp == casblob.Identity && resp.CommittedSize != size {
 					msg := fmt.Sprintf("Unexpected amount of data read: %d expected: %d",
 						resp.CommittedSize, size)
